@@ -88,7 +88,7 @@ if os.path.abspath(a.patch) != os.path.abspath(os.path.join(dst, 'patch.diff')):
   shutil.copy(a.patch, os.path.join(dst, 'patch.diff'))
   shutil.copy(a.demo, os.path.join(dst, 'demo.py'))
 notes = a.patch.replace('.patch.diff', '.notes.md')
-if os.path.exists(notes):
+if notes.endswith('.notes.md') and os.path.exists(notes):
   shutil.copy(notes, os.path.join(dst, 'notes.md'))
 json.dump(meta, open(os.path.join(dst, 'meta.json'), 'w'), indent=1)
 print('stored', dst)
